@@ -39,6 +39,10 @@ def name(i, n):
     return _POOLS[n][i - 1]
 
 
+def _zero(*args):
+    return 0
+
+
 def run_real(par, shuffle_seed=None):
     """par: list (index n-1) of sorted lists of ranks (0 = unknown).  Returns the log record."""
     n = len(par)
@@ -50,8 +54,19 @@ def run_real(par, shuffle_seed=None):
     anc = {nm: frozenset(name(p, n) for p in ps) for nm, ps in items}
     rank = {nm: i + 1 for i, nm in enumerate(names)}
     rec = {"par": [sorted(p) for p in par]}
+    # two construction routes, chosen by the declaration itself: the constructor with explicit direct ancestors, and
+    # VariablesDAG.from_dict on variable objects that DECLARE their dependencies (the route every model takes)
+    via_dict = (sum(len(p) * (i + 3) for i, p in enumerate(par)) + n) % 2 == 0
+    rec["route"] = "from_dict" if via_dict else "constructor"
     try:
-        dag = VariablesDAG(variables, direct_ancestors=anc)
+        if via_dict:
+            from leaspy.utils.functional import NamedInputFunction
+            from leaspy.variables.specs import LinkedVariable
+            specs = {nm: (LinkedVariable(NamedInputFunction(_zero, parameters=tuple(sorted(anc[nm])))) if anc[nm] else IndepVariable())
+                     for nm, _ in items}
+            dag = VariablesDAG.from_dict(specs)
+        else:
+            dag = VariablesDAG(variables, direct_ancestors=anc)
     except LeaspyInputError:
         rec.update(cls="input_error", order=[], anc=[], desc=[])
         return rec
@@ -132,15 +147,36 @@ def structured_declarations():
     return out
 
 
-def model_declaration(model):
+def model_declaration(model, incremental=False):
     specs = model.get_variables_specs()
-    names = sorted(specs)
+    ref = specs                      # the declarations (dependencies as declared by a collection filled in one go)
+    if incremental:
+        # the same definitions entered in two steps with a read-only inspection in between: the graph must be the same
+        # ("the order is a deterministic function of the definitions")
+        from leaspy.variables.specs import NamedVariables
+        items = [(k, v) for k, v in specs.data.items()]
+        nv = NamedVariables()
+        half = len(items) // 2
+        for k, v in items[:half]:
+            if k not in nv.data:
+                nv[k] = v
+        _ = [(k, nv[k]) for k in nv]                 # inspection
+        _ = len(nv), list(nv.items())
+        for k, v in items[half:]:
+            if k not in nv.data:
+                nv[k] = v
+        specs = nv
+    names = sorted(ref)
     rank = {nm: i + 1 for i, nm in enumerate(names)}
-    par = [sorted(rank[p] for p in specs[nm].get_ancestors_names()) for nm in names]
-    dag = VariablesDAG.from_dict(specs)
-    rec = {"par": par, "cls": "ok", "order": [rank[x] for x in dag.sorted_variables_names],
-           "anc": [[rank[x] for x in dag.sorted_ancestors[nm]] for nm in names],
-           "desc": [[rank[x] for x in dag.sorted_children[nm]] for nm in names]}
+    par = [sorted(rank[p] for p in ref[nm].get_ancestors_names()) for nm in names]
+    rec = {"par": par, "route": "incremental" if incremental else "from_dict"}
+    try:
+        dag = VariablesDAG.from_dict(specs)
+        rec.update(cls="ok", order=[rank.get(x, -1) for x in dag.sorted_variables_names],
+                   anc=[[rank.get(x, -1) for x in dag.sorted_ancestors.get(nm, ("?",))] for nm in names],
+                   desc=[[rank.get(x, -1) for x in dag.sorted_children.get(nm, ("?",))] for nm in names])
+    except Exception as e:  # noqa: BLE001
+        rec.update(cls=f"other_{type(e).__name__}", order=[], anc=[], desc=[])
     return rec
 
 
